@@ -17,15 +17,15 @@ CHECKS = {
    ref="DESIGN.md §4 C02"),
  "C18": dict(
    text="The real Accept methods of filter.Null/All/Not/And/Or/NSName/Labels/LabelSelector/Selector (and the k8s labels code they call: SelectorFromSet, LabelSelectorAsSelector, Requirement.Matches, internalSelector.Matches) are executed symbolically on filter terms with solver-chosen structure and symbolic leaf arguments, against a symbolic object (namespace, name, label map with symbolic keys/values); z3 shows Accept equals an independent reference evaluator written from the property text, and that a second Accept returns the same value, for every value within the bound.",
-   note="Bounds: combinator terms to depth 3 with arity <=2 (thorough 3) over arbitrary leaf filters; NSName with <=3 (4) entries, both-empty entries assumed away as the property says; label maps <=2 pairs; LabelSelector with <=1 (2) matchLabels and <=2 matchExpressions (In/NotIn/Exists/DoesNotExist, <=2 values). labels.NewRequirement's syntax validation is stubbed (all keys/values assumed syntactically valid).",
+   note="Bounds: combinator terms to depth 3 with arity <=2 (thorough additionally depth 2 with arity <=4) over arbitrary leaf filters; NSName with <=3 (4) entries, both-empty entries assumed away as the property says; label maps <=2 pairs; LabelSelector with <=1 (2) matchLabels and <=2 matchExpressions (In/NotIn/Exists/DoesNotExist, <=2 values). labels.NewRequirement's syntax validation is stubbed (all keys/values assumed syntactically valid).",
    ref="DESIGN.md §4 C18"),
  "C19": dict(
    text="The seven real PodsFilter constructors, ingress.ServicesFilter, pod.NodeFilter, event.InvolvedFilter/InvolvedObjectFilter and service.SelectorMatchFilter are executed symbolically on <=2-3 symbolic workloads (symbolic namespaces, names, selectors, template labels) and a symbolic candidate object of a solver-chosen kind; z3 shows Accept equals the ownership rule written from the property text for every value within the bound.",
-   note="Bounds: quick W<=2 workloads with matchLabels-only selectors plus W<=1 with one matchExpression, plus W<=3 with single-pair maps and a concrete-label variant for the map-selector kinds (service, replication controller); thorough W<=3 / W<=2 with expressions for every kind; ingress <=2 ingresses with default backend and <=1 (2) rules x 1 path; label maps <=2 pairs. Workload namespaces are assumed non-empty (namespaced API objects). Known finding F6 (replication controller filter ignores the namespace) is listed in KNOWN_FINDINGS.txt.",
+   note="Bounds: quick W<=2 workloads with matchLabels-only selectors plus W<=1 with one matchExpression, plus W<=3 with single-pair maps and a concrete-label variant for the map-selector kinds (service, replication controller); thorough W<=3 with single-pair maps for every kind and W<=1 with two expressions; ingress <=2 ingresses with default backend and <=1 (2) rules x 1 path; label maps <=2 pairs. Workload namespaces are assumed non-empty (namespaced API objects). Known finding F6 (replication controller filter ignores the namespace) is listed in KNOWN_FINDINGS.txt.",
    ref="DESIGN.md §4 C19"),
  "C17": dict(
    text="FiltersEqual and every real Equals/Accept (nullFilter, allFilter, notFilter, andFilter, orFilter, nsNameFilter, selectorFilter, fnFilter, nodeFilter, involvedFilter, serviceForFilter, the seven PodsFilter, ServicesFilter) are executed symbolically on two independently built filters with solver-chosen structure and symbolic arguments plus a symbolic object; z3 shows that whenever equality is reported both filters agree on the object, that nil / non-comparable cases follow the contract, and that filters built twice from the same arguments (workload filters also from the reversed argument order) compare equal, for every value within the bound.",
-   note="Bounds: generic terms to depth 2 (thorough 3) over {Null, All, arbitrary leaf, NSName, Labels, FN, Not, And, Or} with arity <=2; NSName <=2 (3) ids per side; Labels/LabelSelector/Selector pairs with <=2 pairs and <=1 expression; typed pairs one workload per side (same-argument and reversed-order checks with <=2 workloads). reflect.DeepEqual is modelled structurally (documented rules); label keys are assumed non-empty; selectors with two requirements on the same key are outside the claim.",
+   note="Bounds: generic terms to depth 2 over {Null, All, arbitrary leaf, NSName, Labels, FN, Not, And, Or} with arity <=2; NSName <=2 (3) ids per side; Labels/LabelSelector/Selector pairs with <=2 pairs and <=1 expression; typed pairs one workload per side (same-argument and reversed-order checks with <=2 workloads). reflect.DeepEqual is modelled structurally (documented rules); label keys are assumed non-empty; selectors with two requirements on the same key are outside the claim.",
    ref="DESIGN.md §4 C17"),
  "C06": dict(
    text="The real filterSubscription.run with its real private cache actor runs below a fake parent subscription whose cache is a second real cache actor mutated by the environment; the environment performs K actions (parent ready, arbitrary parent change with symbolic type/key/version, Refilter to one of four arbitrary filters incl. a non-comparable one) in every order, and every interleaving of the goroutines is explored (sleep-set partial-order reduction). At every quiescent point z3 shows the cache equals the parent content filtered by the most recently set filter at the parent's versions, and that the subscription's own events replay to its own cache.",
@@ -45,7 +45,7 @@ CHECKS = {
    ref="DESIGN.md §4 C16"),
  "C03": dict(
    text="The real controller.run and the real cache actor run between a fake lister, a recording subscription and a fake watcher whose event channel the environment feeds with ARBITRARY symbolic events (any type, key, version), which over-approximates every watch fault (never connects, drops, duplicates, replays, reordering). The environment performs K actions {list completes, watch event, list completes while a watch event is in flight}; all interleavings explored. From a snapshot taken inside watcher.reset (i.e. right after the sync) z3 shows: every cached key was listed, every listed accepted object is present and never older than listed, the exact reference result when nothing was in flight, one reset per list with the list's version, nothing published for the initial list, and that replaying the published events from the content at readiness always equals the cache.",
-   note="Bounds: quick K<=3 actions with lists of <=1 object and K<=2 with lists of <=2 objects; thorough K<=4/L<=1 and K<=3/L<=2. A third entry (VerifC03_Relist) replaces the fake watcher by the REAL watcher and sessions over a fake API server with <=1 (2) watch events between two lists and asserts the cache equals the second list whatever the watch delivered or still buffers. Watch events before the first list are excluded (the real watcher has no session before its first reset). The liveness half (relists keep coming) is C13; the composition is argued in DESIGN.md.",
+   note="Bounds: K<=3 actions with lists of <=1 object and K<=2 with lists of <=2 objects (K<=4/L<=1 and K<=3/L<=2 exceed 15 minutes and are not registered). A third entry (VerifC03_Relist) replaces the fake watcher by the REAL watcher and sessions over a fake API server with <=1 (thorough 2) watch events between two lists and asserts the cache equals the second list whatever the watch delivered or still buffers. Watch events before the first list are excluded (the real watcher has no session before its first reset). The liveness half (relists keep coming) is C13; the composition is argued in DESIGN.md.",
    ref="DESIGN.md §4 C03"),
  "C13": dict(
    text="The real lister and ticker run against the engine's timer model with a SYMBOLIC logical clock: the configured period and every jittered period are arbitrary 64-bit values, timer fires are environment transitions, the fake List blocks until released or cancelled. All interleavings of up to CYCLES list/consume cycles and FIRES timer fires are explored; z3 shows each List call starts no earlier than one period after the clock value read before the previous result was consumed, calls never overlap, no reachable state is stuck while a list is awaited, and after closing the stop channel at any point the lister is Done with every library goroutine gone.",
@@ -57,22 +57,22 @@ CHECKS = {
    ref="DESIGN.md §4 C14"),
  "C04": dict(
    text="The real watcher and watch sessions run under the real controller loop against a fake API server with a history of n events (symbolic keys, solver-chosen types): every Watch(rv) call either fails or streams the events newer than rv interleaved with Status / Bookmark frames, and may close before any event or after the burst, within a fault budget; retry timers fire as environment transitions; exactly one list is delivered. All interleavings of controller, watcher, sessions, streams and timers are explored (sleep sets + state cache). At quiescence every event of the history has been applied to the cache in history order (replays allowed, skips not) and published, every Watch call resumes at the list version or at an event version, and neither watcher nor controller has terminated.",
-   note="Bounds: quick n<=2 events with <=1 fault and n<=1 with <=2 faults (connect error or close at any position), thorough n<=3 and <=2 faults; the final Watch call is served without fault (otherwise the premise 'the server emits it' fails); EventBufsiz scaled to 3 (4) - no overflow occurs within the bound. Consumer/producer speed ratios = all interleavings.",
+   note="Bounds: quick n<=2 events with <=1 fault and n<=1 with <=2 faults (connect error or close at any position), thorough n<=2 with <=2 faults (n=3 does not finish in 15 minutes); the final Watch call is served without fault (otherwise the premise 'the server emits it' fails); EventBufsiz scaled to 3 - no overflow occurs within the bound. Consumer/producer speed ratios = all interleavings.",
    ref="DESIGN.md §4 C04"),
  "C05": dict(
    text="Real publisher.run / _subscription.run (and clones of clones) below a fake root subscription: the environment publishes opaque events and attaches subscribers and clones at solver-chosen points of the stream (optionally at a quiescent moment), in every order up to K actions, including closing one of the subscribers mid-stream, with every iteration order of the publisher's subscription map; all interleavings explored. At quiescence z3/the engine show every subscriber received a contiguous suffix of the published sequence, in order, without duplicate, containing at least every event published after its Subscribe returned (exactly those when it subscribed at a quiescent moment). The cache-not-older clause is asserted in the controller harness (send happens after the cache update).",
-   note="Bounds: quick K<=5 actions, clone depth <=3; thorough K<=6. Backlog stays below the real EventBufsiz (100). Map iteration order of the subscription set is insertion order (order of sends to different subscribers is not observable by them).",
+   note="Bounds: quick K<=5 actions, clone depth <=3; thorough K<=6. Streams mix creates, strictly newer updates and deletes. Backlog stays below the real EventBufsiz (100). Map iteration order of the subscription set is insertion order (order of sends to different subscribers is not observable by them).",
    ref="DESIGN.md §4 C05"),
  "C10": dict(
    text="Real publisher / subscription / filtered clone / filtered subscription / monitor with one consumer that never reads and one healthy consumer that keeps its backlog below the buffer, for streams of 0..2B+1 events with EventBufsiz scaled to B; all interleavings explored. The engine shows no stuck state (the stream is always accepted), the healthy consumer receives all events in order, the parent cache holds all objects, and what the stalled consumer later drains is an in-order subsequence of at least min(m,B) events.",
-   note="Bounds: B=2 (thorough 3), streams of creates and deletes of length <=4 (7), four placements of the stalled consumer (sibling subscriber, subscriber of a clone, subscriber of a filtered clone, filtered subscription next to a monitor). The real constant 100 is outside the claim (the code is parametric in it; scaling is recorded in the evidence).",
+   note="Bounds: B=2, streams of creates and deletes of length <=4 (thorough 5), four placements of the stalled consumer (sibling subscriber, subscriber of a clone, subscriber of a filtered clone, filtered subscription next to a monitor). The real constant 100 is outside the claim (the code is parametric in it; scaling is recorded in the evidence).",
    ref="DESIGN.md §4 C10"),
  "C11": dict(
    text="Trees of real publisher / subscription / filtered subscription / clone / filtered clone / monitor nodes below a fake root, shape chosen by the solver; one node (or the root's parent) is closed before any event, mid-stream or at a quiescent point; all interleavings explored. At quiescence every node of the closed subtree is Done with its Events() closed, every other node is not Done and receives a subsequent event.",
    note="Bounds: quick all single-node shapes (mid-stream included) plus all two-sibling shapes, each with a ready or not-yet-ready root and optionally a Refilter on the filtered nodes just before the close, plus the controller with its real subscription/publisher and one subscriber; thorough adds two-level chains (depth 3) and a filtered subscriber below the controller. Deeper trees do not finish (see DESIGN.md: state explosion of shutdown cascades).",
    ref="DESIGN.md §4 C11"),
  "C12": dict(
-   text="Termination is decided per component group with one oracle (no stuck state, Done closes, every library goroutine exits, API calls return a result or ErrNotRunning): real watcher+sessions with resets, server-side stream drops followed by timer-driven reconnects, and shutdown arriving while Watch() is connecting/connected/reconnected (fake client blocks until cancelled: exactly the property's proviso); real cache actor with calls in flight; real publisher with Subscribe/Clone/SubscribeWithFilter racing with shutdown; real controller loop with Close, concurrent Close, and list error at every workload point; real lister+ticker at every point of the list/tick cycle. All interleavings explored in each group.",
+   text="Termination is decided per component group with one oracle (no stuck state, Done closes, every library goroutine exits, API calls return a result or ErrNotRunning): real watcher+sessions with resets, server-side stream drops followed by timer-driven reconnects, and shutdown arriving while Watch() is connecting/connected/reconnected (fake client blocks until cancelled: exactly the property's proviso); real cache actor with calls in flight; real publisher with Subscribe/Clone/SubscribeWithFilter racing with shutdown; real controller loop with Close, concurrent Close, list error and a cancellation-valued list error at every workload point; real lister+ticker at every point of the list/tick cycle. All interleavings explored in each group.",
    note="The full composition below Builder.Create() does not finish even for the empty workload (>1.7M paths in 300 s), so the claim is compositional: each group with fakes honouring the interfaces between them; cross-group cascades (controller waiting for cache/watcher/lister Done) are covered by the controller group with fakes that stop on shutdown. Context cancellation of the root is covered for cache and watcher groups.",
    ref="DESIGN.md §4 C12"),
  "C15": dict(
